@@ -206,7 +206,10 @@ CHECKS["C04"] = {
             "model (shared with C02/C06) are compared with the crate on every generated structure (bytes written, outcome of the re-read). The "
             "round-trip specification (Spec/CifRoundTrip.v) states, independently of the writer's arithmetic, when a re-read structure is the "
             "original with every atom number rounded to five decimals and identifier, cell, space group, scale, origx and NCS operators unchanged; "
-            "it is evaluated on every (original, re-read) pair, and a second write must reproduce the file byte for byte. Proved: every tag the "
+            "it is evaluated on every (original, re-read) pair, and a second write must reproduce the file byte for byte. Proved, for every binary64 "
+            "value: the shortest-digits text ({} of f64, used for cell, scale, origx and NCS values) of a non-zero value is read back by the decimal "
+            "parser as a rational that rounds to exactly that value - the digit search only accepts digits that pass this test, and the printed text "
+            "is proved to parse to them (Proofs/Shortest.v); a fixed-point text reads back as exactly the decimal it shows. Proved: every tag the "
             "writer emits is one the reader recognises or is on the reviewed list of ignored tags, and every mandatory reader column is written; "
             "the hand-written column and item tables of the reader model equal the regenerated ones.",
     "design_ref": "DESIGN.md section 6 C04",
